@@ -2,6 +2,7 @@
    Extract Constant): check_convert plus the individual decimal operations,
    which the harness also compares one by one with Python's decimal module. *)
 From Coq Require Import Extraction ExtrOcamlBasic NArith ZArith List.
-From AHK Require Import Lib.Res Model.Convert.
+From AHK Require Import Lib.Res Model.Convert Model.ConvertHist.
 Separate Extraction Z.of_N Z.to_N N.of_nat N.to_nat
-  check_convert dadd dsub dmul ddiv dfix to_integral dcompare dec_to_Z snap_int.
+  check_convert dadd dsub dmul ddiv dfix to_integral dcompare dec_to_Z snap_int
+  ConvertHist.run.
